@@ -189,6 +189,27 @@ Proof.
     destruct (shown_b v o) eqn:E; [|reflexivity]. exfalso. apply (H k v I Hd). now apply shown_b_spec.
 Qed.
 
+(* ---- rendering after use: nothing of a configured value appears that the same rendering did not show before ----- *)
+Definition after_ok (cfg : hdrs) (ba : list (string * string)) : bool :=
+  (* (written with [if]: vm_compute evaluates the arguments of && eagerly, and the search in the BEFORE rendering is
+     needed only in the rare case that the AFTER rendering shows the value) *)
+  forallb (fun p => forallb (fun kv => if distinctive (snd kv)
+                                       then (if shown_b (snd kv) (snd p) then shown_b (snd kv) (fst p) else true)
+                                       else true) cfg) ba.
+
+Definition Clause_after (cfg : hdrs) (ba : list (string * string)) : Prop :=
+  forall b a k v, In (b, a) ba -> In (k, v) cfg -> distinctive v = true -> shown v a -> shown v b.
+
+Lemma after_sound cfg ba : after_ok cfg ba = true <-> Clause_after cfg ba.
+Proof.
+  unfold after_ok, Clause_after. rewrite forallb_forall. split.
+  - intros H b a k v I J Hd Ha. specialize (H (b, a) I). rewrite forallb_forall in H. specialize (H (k, v) J). simpl in H.
+    rewrite Hd in H. apply shown_b_spec in Ha. rewrite Ha in H. now apply shown_b_spec.
+  - intros H [b a] I. apply forallb_forall. intros [k v] J. simpl.
+    destruct (distinctive v) eqn:Hd; [|reflexivity]. destruct (shown_b v a) eqn:Ea; [|reflexivity].
+    apply shown_b_spec in Ea. specialize (H b a k v I J Hd Ea). now apply shown_b_spec.
+Qed.
+
 (* ---- one code per case ------------------------------------------------------------------------------------ *)
 Definition keys_distinct (f : string -> string) (cfg : hdrs) : bool := nodup_b (map (fun kv => f (fst kv)) cfg).
 
@@ -215,6 +236,7 @@ Definition prop_code (c : vcase) : nat :=
   | CTlsErr _ _ _ _ _ _ => 0
   | CTlsCA _ _ _ _ => 0
   | CValidate _ _ _ cfg o => if fail_ok (dec2 cfg) (dec o) then 0 else 4
+  | CAfterUse _ cfg _ before after => if after_ok (dec2 cfg) (combine (map dec before) (map dec after)) then 0 else 1
   end.
 
 Definition prop_ok (c : vcase) : bool := Nat.eqb (prop_code c) 0.
@@ -237,6 +259,7 @@ Definition Clause (c : vcase) : Prop :=
   | CTlsErr _ _ _ _ _ _ => True
   | CTlsCA _ _ _ _ => True
   | CValidate _ _ _ cfg o => Clause_fail (dec2 cfg) (dec o)
+  | CAfterUse _ cfg _ before after => Clause_after (dec2 cfg) (combine (map dec before) (map dec after))
   end.
 
 Theorem prop_ok_sound : forall c, prop_ok c = true <-> Clause c.
@@ -271,4 +294,5 @@ Proof.
   - intuition.
   - intuition.
   - rewrite <- fail_sound. destruct (fail_ok (dec2 cfg) (dec obs)); intuition discriminate.
+  - rewrite <- after_sound. destruct (after_ok (dec2 cfg) (combine (map dec before) (map dec after))); intuition discriminate.
 Qed.
